@@ -729,6 +729,9 @@ exh:
 			{"start", "clients=75", "restart", "clients=33", "stop"},
 			{"tracer-fails-once", "start", "start", "stop"},
 			{"tracer-fails-once", "start", "stop", "start", "stop"},
+			{"start", "start-again", "stop"},
+			{"start", "start-again", "restart", "start-again", "stop", "start", "stop"},
+			{"start", "settlsport0", "start-again", "stop"},
 		}
 		for i, ops := range fixed {
 			if i%h.NShards != h.Shard {
@@ -742,7 +745,7 @@ exh:
 			var ops []string
 			for i, n := 0, rapid.IntRange(2, 9).Draw(rt, "nops"); i < n; i++ {
 				ops = append(ops, rapid.SampledFrom([]string{"start", "start", "stop", "restart", "restart", "setport0", "setport", "settlsport0", "settlsport", "config-port0", "config-tlsport0",
-					"occupy-tls", "free-tls", "drop-cert", "restore-cert", "tracer-fails-once", "clients=40", "clients=33"}).Draw(rt, "op"))
+					"occupy-tls", "free-tls", "drop-cert", "restore-cert", "tracer-fails-once", "clients=40", "clients=33", "start-again"}).Draw(rt, "op"))
 			}
 			c := c15Cfg{Ops: ops}
 			h.Col.Case(true, []byte(fmt.Sprint("cfg", ops)), "reconfiguration-and-failed-start")
